@@ -3,17 +3,20 @@
 (* The feature-construction stage of core_ranking.compute_batch_ranking:   *)
 (* one action per constructor, in the order of the code, each enabled by   *)
 (* its flag:                                                               *)
+(*   Transform    --transformers <preset> with C declared numeric: appends  *)
+(*                C<transformer> columns (formulas and the keep rule are    *)
+(*                specified in Transformers.tla; here: values "?", and the  *)
+(*                implementation may keep any subset of them)               *)
 (*   Expand       --explode_multivalue_features M                          *)
 (*   Sub          --subfeature_mapping "A->B;A<->C;...": one step per pair  *)
 (*                of the mapping list, one-sided (->) or two-sided (<->)    *)
 (*   Interact     --interaction_order 2 (see Interactions.tla for the key) *)
 (*   Noise        --include_noise_baseline_features True                   *)
-(* (--transformers is specified in Transformers.tla; it only appends too.) *)
 (* A frame is a sequence of columns <<name, values>>; names and cell       *)
 (* values are structured terms the harness renders as strings:             *)
 (*   <<"lab">> / <<"M">> / <<"A">> / <<"B">>  the original columns          *)
 (*   <<"MULTIEX", col, token>>, <<"SUB1", a, v>>, <<"SUB2", a, b, va, vb>>,*)
-(*   <<"AND", n1, n2>>, <<"CONTROL", k>>                                   *)
+(*   <<"AND", n1, n2>>, <<"CONTROL", k>>, <<"TR", col, transformer>>       *)
 (* Cell values of the multi-value column are strings whose token sets are  *)
 (* given by Tok (delimiters "," and "-").                                  *)
 (***************************************************************************)
@@ -24,7 +27,8 @@ CONSTANTS NRows, MVals, AVals, BVals, CVals,   \* value alphabets of columns M, 
           SubMaps,                         \* set of --subfeature_mapping lists: sequences of <<"one"|"two", seed column, selector column>>
           FlagSets,                        \* set of flag subsets explored
           MissingTokens,                   \* tokens that are missing-value symbols (no indicator column)
-          NControls                        \* number of random control columns (names fixed by the code)
+          NControls,                       \* number of random control columns (names fixed by the code)
+          TrNames                          \* sequence of transformer names of the preset
 
 VARIABLES pc, flags, submap, focus, raw, frame, frame0
 vars == <<pc, flags, submap, focus, raw, frame, frame0>>
@@ -63,7 +67,13 @@ ChooseB == /\ pc = "b" /\ \E c \in [Rows -> BVals] : frame' = Append(frame, <<<<
 \* before any constructor, so the focused frame is the batch's "original" frame
 Focused(f) == SelectSeq(f, LAMBDA col : col[1] = <<"lab">> \/ col[1][1] \in focus)
 ChooseC == /\ pc = "c" /\ \E c \in [Rows -> CVals] : raw' = Append(frame, <<<<"C">>, c>>)
-           /\ frame' = Focused(raw') /\ frame0' = frame' /\ pc' = "expand" /\ UNCHANGED <<flags, submap, focus>>
+           /\ frame' = Focused(raw') /\ frame0' = frame' /\ pc' = "transform" /\ UNCHANGED <<flags, submap, focus>>
+
+\* ---- enrich_with_transformations: runs on the focused frame, before every other constructor
+TrCols == IF "C" \in focus THEN [k \in DOMAIN TrNames |-> <<<<"TR", "C", TrNames[k]>>, [r \in Rows |-> "?"]>>] ELSE <<>>
+Transform == /\ pc = "transform"
+             /\ frame' = IF "transform" \in flags THEN frame \o TrCols ELSE frame
+             /\ pc' = "expand" /\ UNCHANGED <<flags, submap, focus, raw, frame0>>
 
 \* ---- compute_expanded_multivalue_features
 TokensOfCol(col) == UNION {Tok[col[r]] : r \in Rows} \ MissingTokens
@@ -106,16 +116,16 @@ Noise == /\ pc = "noise"
          /\ frame' = IF "noise" \in flags THEN frame \o NoiseCols ELSE frame
          /\ pc' = "done" /\ UNCHANGED <<flags, submap, focus, raw, frame0>>
 
-Next == ChooseM \/ ChooseA \/ ChooseB \/ ChooseC \/ Expand \/ Sub \/ Interact \/ Noise
+Next == ChooseM \/ ChooseA \/ ChooseB \/ ChooseC \/ Transform \/ Expand \/ Sub \/ Interact \/ Noise
 Spec == Init /\ [][Next]_vars
 
-Built == pc \in {"sub", "interact", "noise", "done"}
+Built == pc \in {"expand", "sub", "interact", "noise", "done"}
 \* ---- C11
 Additive == Built => /\ Len(frame) >= Len(frame0)
                      /\ SubSeq(frame, 1, Len(frame0)) = frame0                    \* originals, their values and the row order
 OneValuePerRow == Built => \A k \in DOMAIN frame : DOMAIN frame[k][2] = Rows
 DistinctNames == Built => \A j, k \in DOMAIN frame : j # k => frame[j][1] # frame[k][1]
-MultiValueRule == (Built /\ "multi" \in flags) =>
+MultiValueRule == (pc \in {"sub", "interact", "noise", "done"} /\ "multi" \in flags) =>
     \A t \in AllTokens :
         IF t \in TokensOfCol(Vals(frame0, "M"))
         THEN \E k \in DOMAIN frame : /\ frame[k][1] = <<"MULTIEX", "M", t>>
